@@ -18,6 +18,12 @@ import (
 type MSeries struct {
 	Labels  map[string]string `json:"labels"`
 	Samples []model.Sample    `json:"samples"` // ascending TimestampMs
+	// Fp is the fingerprint the rows are stored under (0 = position + 1).  Two MSeries may carry the same label
+	// set under different fingerprints (the reader's own "double labels set found" case: a series written by
+	// writers that hashed the labels differently); the stored series is then the union of their samples.
+	Fp uint64 `json:"fp,omitempty"`
+	// TwoIndexRows stores the time_series row twice (two days), as the daily re-insert of the writer does.
+	TwoIndexRows bool `json:"two_index_rows,omitempty"`
 }
 
 // MetricDB is a small database of metric series: the single source for both the ClickHouse tables the real
@@ -36,6 +42,7 @@ func (s MSeries) lset() labels.Labels {
 }
 
 const dayOfData = "2023-11-14" // 1_700_000_000 s
+const dayAfterData = "2023-11-15"
 
 // Tables builds time_series / samples_v3 (+ time_series_gin through the repository's materialized view,
 // executed by chsim) for the database.  Fingerprints are 1..n (opaque identifiers).
@@ -44,7 +51,13 @@ func (d *MetricDB) Tables() (*chsim.DB, error) {
 	var ts, sm [][]chsim.Value
 	for i, s := range d.Series {
 		fp := uint64(i + 1)
+		if s.Fp != 0 {
+			fp = s.Fp
+		}
 		ts = append(ts, []chsim.Value{dayOfData, fp, chsim.LabelsJSON(s.Labels), s.Labels["__name__"], uint64(2)})
+		if s.TwoIndexRows {
+			ts = append(ts, []chsim.Value{dayAfterData, fp, chsim.LabelsJSON(s.Labels), s.Labels["__name__"], uint64(2)})
+		}
 		for _, p := range s.Samples {
 			sm = append(sm, []chsim.Value{fp, p.TimestampMs * 1_000_000, p.Value, "", uint64(2)})
 		}
@@ -135,7 +148,18 @@ func refSelect(db *MetricDB, h *storage.SelectHints, ms []*labels.Matcher) []rec
 		if len(rs.Samples) == 0 {
 			continue // a series without samples in the range is not part of the result (as in the TSDB)
 		}
-		out = append(out, rs)
+		// a label set stored under several fingerprints is ONE series: the union of the samples in time order
+		merged := false
+		for k := range out {
+			if labels.Equal(out[k].Labels, rs.Labels) {
+				out[k].Samples = append(out[k].Samples, rs.Samples...)
+				sort.SliceStable(out[k].Samples, func(a, b int) bool { return out[k].Samples[a].TimestampMs < out[k].Samples[b].TimestampMs })
+				merged = true
+			}
+		}
+		if !merged {
+			out = append(out, rs)
+		}
 	}
 	sort.Slice(out, func(i, j int) bool { return labels.Compare(out[i].Labels, out[j].Labels) < 0 })
 	return out
